@@ -155,9 +155,19 @@ class ExtentAttribute:
 
       s = extent.split(" ")
 
-      (w, w_units) = utils.parse_length(s[0])
+      try:
 
-      (h, h_units) = utils.parse_length(s[1])
+        if len(s) != 2:
+          raise ValueError("tts:extent on <tt> does not have two components")
+
+        (w, w_units) = utils.parse_length(s[0])
+
+        (h, h_units) = utils.parse_length(s[1])
+
+      except ValueError:
+
+        LOGGER.error("tts:extent on <tt> has invalid syntax")
+        return None
 
       if w_units != "px" or h_units != "px":
         LOGGER.error("ttp:extent on <tt> does not use px units")
